@@ -23,6 +23,16 @@
 //! (schedule_timer, after run_queued_tasks) resumes it, it calls `yield_now()` (local push) and notes when it runs again.
 //! Before the fix that was when B's timer fired (10 s); now at once (select returns Some(0) while the local queue is not
 //! empty).  Oracle: A runs again within 1 s of virtual time (LATE otherwise).
+//!
+//! MAYV_MODE=spin (budget of run_queued_tasks, fix e723520): MAYV_N (default 300) yields of one coroutine whose local queue
+//! never runs dry (plus a second coroutine spawned from the main thread half-way): the worker must look at its global queue
+//! every GLOBAL_INTERVAL run_coroutine calls and go back to its selector after RUN_BUDGET of them, and select must return
+//! Some(0) then.  Oracle: the second coroutine runs within 2 s of virtual time.
+//!
+//! Trace acceptance (acceptor `schedloop`, coq/Rt/SchedLoopAccept.v): every spawn is bracketed by `sp.call(j)` / `sp.ret(j)`
+//! records, the run starts with `cfg(workers, idle poll ns)`; with MAYV_ATOMIC_SPMC=1 the hooks of may_queue/src/spmc.rs are
+//! not schedule points (the local run queues are the atomic FIFOs of C04: pop / steal_into / has_tasks and the pure record
+//! that follows them are one step), everything else still is.
 use mayv::*;
 use std::sync::atomic::{AtomicBool, AtomicU32, AtomicU64, Ordering::SeqCst};
 use std::sync::Arc;
@@ -63,6 +73,21 @@ struct Sh {
 }
 
 type H = may::coroutine::JoinHandle<u64>;
+
+/// ids of the coroutines the oracles of mode idle do not track (warm-up, starve, iotimer, spin)
+static AUXJ: AtomicU32 = AtomicU32::new(300);
+
+/// every spawn is bracketed by sp.call / sp.ret records (the acceptor takes ASpawn at the fetch_add in between)
+fn logged<T>(j: u64, f: impl FnOnce() -> T) -> T {
+    let c = mayv::ctx();
+    c.log("sp.call", j, 0, None);
+    let r = f();
+    c.log("sp.ret", j, 0, None);
+    r
+}
+fn auxj() -> u64 {
+    AUXJ.fetch_add(1, SeqCst) as u64
+}
 
 /// body of coroutine j: a function of (seed, j)
 fn body(sh: &Arc<Sh>, j: usize, depth: u32) -> u64 {
@@ -118,7 +143,7 @@ fn spawn_with<F: FnOnce() + Send + 'static>(sh: &Arc<Sh>, _depth: u32, f: F) -> 
     assert!(j < MAXC);
     sh.spawned_at[j].store(c.now(), SeqCst);
     let sh2 = sh.clone();
-    let h = unsafe {
+    let h = logged(j as u64, || unsafe {
         may::coroutine::spawn(move || -> u64 {
             let c = mayv::ctx();
             let e = sh2.exec[j].fetch_add(1, SeqCst);
@@ -130,7 +155,7 @@ fn spawn_with<F: FnOnce() + Send + 'static>(sh: &Arc<Sh>, _depth: u32, f: F) -> 
             sh2.finished[j].store(true, SeqCst);
             100 + j as u64
         })
-    };
+    });
     (j, h)
 }
 
@@ -140,7 +165,7 @@ fn spawn_one(sh: &Arc<Sh>, depth: u32) -> (usize, H) {
     assert!(j < MAXC);
     sh.spawned_at[j].store(c.now(), SeqCst);
     let sh2 = sh.clone();
-    let h = unsafe { may::coroutine::spawn(move || body(&sh2, j, depth)) };
+    let h = logged(j as u64, || unsafe { may::coroutine::spawn(move || body(&sh2, j, depth)) });
     (j, h)
 }
 
@@ -224,7 +249,7 @@ fn mode_starve(ctx: &Ctx) {
     let started = Arc::new(AtomicBool::new(false));
     let polls = Arc::new(AtomicU64::new(0));
     let (f1, s1, p1) = (flag.clone(), started.clone(), polls.clone());
-    let a = unsafe {
+    let a = logged(auxj(), || unsafe {
         may::coroutine::spawn(move || {
             s1.store(true, SeqCst);
             while !f1.load(SeqCst) {
@@ -232,14 +257,14 @@ fn mode_starve(ctx: &Ctx) {
                 may::coroutine::yield_now();
             }
         })
-    };
+    });
     while !started.load(SeqCst) {
         ctx.yield_now();
     }
     let t0 = ctx.now();
     println!("A polls its flag with yield_now() on the only worker; spawning B (sets the flag) from the main thread at t={t0}");
     let f2 = flag.clone();
-    let b = unsafe { may::coroutine::spawn(move || f2.store(true, SeqCst)) };
+    let b = logged(auxj(), || unsafe { may::coroutine::spawn(move || f2.store(true, SeqCst)) });
     // a watchdog thread reports what A has done so far, should the run be cut off by the step budget
     let p2 = polls.clone();
     let f3 = flag.clone();
@@ -268,14 +293,14 @@ fn mode_iotimer(ctx: &Ctx) {
     // B: keeps an I/O timer pending on the only worker
     let sb = may::net::UdpSocket::bind("127.0.0.1:0").expect("bind");
     let addr_b = sb.local_addr().unwrap();
-    let b = unsafe {
+    let b = logged(auxj(), || unsafe {
         may::coroutine::spawn(move || {
             sb.set_read_timeout(Some(Duration::from_nanos(long))).unwrap();
             let mut buf = [0u8; 8];
             let _ = sb.recv(&mut buf);
         })
-    };
-    let a = unsafe {
+    });
+    let a = logged(auxj(), || unsafe {
         may::coroutine::spawn(move || {
             let c = mayv::ctx();
             let sa = may::net::UdpSocket::bind("127.0.0.1:0").expect("bind");
@@ -291,13 +316,47 @@ fn mode_iotimer(ctx: &Ctx) {
             // let B go
             sa.send_to(&[1u8; 8], addr_b).ok();
         })
-    };
+    });
     a.join().ok();
     b.join().ok();
     let d = resumed_after.load(SeqCst);
     if d > 1_000_000_000 {
         ctx.fail(format!("LATE: a coroutine that yielded after an I/O timeout ran again {d} ns later (next I/O timer), not at once"));
     }
+}
+
+/// budget and interval of run_queued_tasks: a local queue that never runs dry
+fn mode_spin(ctx: &Ctx) {
+    let n = envn("MAYV_N", 300);
+    let half = Arc::new(AtomicBool::new(false));
+    let h1 = half.clone();
+    let a = logged(auxj(), || unsafe {
+        may::coroutine::spawn(move || {
+            for i in 0..n {
+                if i == n / 2 {
+                    h1.store(true, SeqCst);
+                }
+                may::coroutine::yield_now();
+            }
+        })
+    });
+    while !half.load(SeqCst) {
+        ctx.yield_now();
+    }
+    let t0 = ctx.now();
+    let ran = Arc::new(AtomicU64::new(0));
+    let r1 = ran.clone();
+    let b = logged(auxj(), || unsafe {
+        may::coroutine::spawn(move || {
+            r1.store(mayv::ctx().now().max(1), SeqCst);
+        })
+    });
+    b.join().ok();
+    let d = ran.load(SeqCst).saturating_sub(t0);
+    if d > 2_000_000_000 {
+        ctx.fail(format!("STARVED: a coroutine in the global queue of a busy worker ran {d} ns after its spawn"));
+    }
+    a.join().ok();
 }
 
 extern "C" {
@@ -312,6 +371,22 @@ fn main() {
             unsafe { close(fd) };
         }
         cfg.poll_io = true;
+    }
+    // acceptor-tied runs: the local run queues are atomic (every hooked file but may_queue/src/spmc.rs is a schedule point)
+    if std::env::var("MAYV_ATOMIC_SPMC").is_ok() {
+        cfg.sched_files = vec![
+            "may_queue/src/atomic.rs", "may_queue/src/mpsc.rs", "may_queue/src/mpsc_list.rs", "may_queue/src/mpsc_list_v1.rs",
+            "may_queue/src/spsc.rs", "src/cancel.rs", "src/config.rs", "src/coroutine_impl.rs", "src/cqueue.rs", "src/io/mod.rs",
+            "src/io/sys/unix/cancel.rs", "src/io/sys/unix/co_io.rs", "src/io/sys/unix/epoll.rs", "src/io/sys/unix/mod.rs",
+            "socket_peek.rs", "socket_read.rs", "socket_write.rs", "socket_write_vectored.rs", "tcp_listener_accept.rs",
+            "tcp_stream_connect.rs", "udp_recv_from.rs", "udp_send_to.rs", "unix_listener_accept.rs", "unix_recv_from.rs",
+            "unix_send_to.rs", "unix_stream_connect.rs", "wait_io.rs", "src/join.rs", "src/net/tcp.rs", "src/net/udp.rs",
+            "src/park.rs", "src/pool.rs", "src/scheduler.rs", "src/scoped.rs", "src/sleep.rs", "src/sync/atomic_dur.rs",
+            "src/sync/atomic_option.rs", "src/sync/blocking.rs", "src/sync/condvar.rs", "src/sync/delay_drop.rs",
+            "src/sync/fast_blocking.rs", "src/sync/mpmc.rs", "src/sync/mpsc.rs", "src/sync/mutex.rs", "src/sync/poison.rs",
+            "src/sync/rwlock.rs", "src/sync/semphore.rs", "src/sync/spsc.rs", "src/sync/sync_flag.rs", "src/timeout_list.rs",
+            "src/yield_now.rs",
+        ];
     }
     // the idle poll of the workers: must be set before the scheduler is created
     let tmo = envn("MAYV_TMO", if mode == "idle" { 3_600_000_000_000 } else { 10_000_000 });
@@ -329,16 +404,18 @@ fn main() {
     std::panic::set_hook(Box::new(|_| {}));
     let workers = cfg.workers;
     run(cfg, move |ctx| {
+        ctx.log("cfg", workers as u64, tmo, None);
         // the scheduler is created by the first spawn under a std `Once`: do it before other threads exist; up to one spawn
         // per worker so that every worker has left its first select (the one without a timeout) in some runs and not in others
         for _ in 0..(1 + sh.seed as usize % workers.max(1)) {
-            let h = unsafe { may::coroutine::spawn(|| {}) };
+            let h = logged(auxj(), || unsafe { may::coroutine::spawn(|| {}) });
             let _ = h.join();
         }
         match mode.as_str() {
             "idle" => mode_idle(ctx, &sh),
             "starve" => mode_starve(ctx),
             "iotimer" => mode_iotimer(ctx),
+            "spin" => mode_spin(ctx),
             o => panic!("MAYV_MODE={o}"),
         }
         ctx.record(false);
